@@ -341,8 +341,10 @@ def _pick_action(env, decl_kind, sym, smp, table):
 
 
 @eqx.filter_jit
-def _tree_run(env, kints, syms, table):
-    """kints (B,), syms (d, B) -> reset observation and per-step outputs, each (d, B, ...)."""
+def _tree_run(env, kints, syms, table, succ=False):
+    """kints (B,), syms (d, B) -> reset observation and per-step outputs, each (d, B, ...).
+    succ: also emit the observation of the un-reset successor transition(s, a): step() auto-resets, so the observation of a
+    terminal state - which the collectors store as next_observation - is never returned by step() itself."""
     kind = "discrete" if isinstance(env.action_space, Discrete) else "box"
     keys = jax.vmap(jr.key)(kints)
 
@@ -354,6 +356,9 @@ def _tree_run(env, kints, syms, table):
         smp = env.action_space.sample(key=jr.fold_in(k, 1000 + t))
         a = _pick_action(env, kind, sym, smp, table)
         s2, o, r, te, tr, _ = env.step(s, a, key=jr.fold_in(k, 1 + t))
+        if succ:
+            nxt = env.transition(s, a, key=jr.fold_in(k, 5000 + t))
+            return s2, (o, r, te, tr, smp, a, env.observation(nxt, key=jr.fold_in(k, 6000 + t)))
         return s2, (o, r, te, tr, smp, a)
 
     s0, o0 = jax.vmap(one_reset)(keys)
@@ -367,8 +372,8 @@ def _tree_run(env, kints, syms, table):
 
 
 @eqx.filter_jit
-def _long_run(env, kints, pol, table, ts):
-    """pol: dict of (B,) int arrays kind/period/comp/sign/hi/lo (symbols); ts = arange(H)."""
+def _long_run(env, kints, pol, table, ts, succ=False):
+    """pol: dict of (B,) int arrays kind/period/comp/sign/hi/lo (symbols); ts = arange(H).  succ: as in _tree_run."""
     kind = "discrete" if isinstance(env.action_space, Discrete) else "box"
     keys = jax.vmap(jr.key)(kints)
 
@@ -384,6 +389,9 @@ def _long_run(env, kints, pol, table, ts):
         smp = env.action_space.sample(key=jr.fold_in(k, 1000 + t))
         a = _pick_action(env, kind, sym, smp, table)
         s2, o2, r, te, tr, _ = env.step(s, a, key=jr.fold_in(k, 1 + t))
+        if succ:
+            nxt = env.transition(s, a, key=jr.fold_in(k, 5000 + t))
+            return (s2, o2), (o2, r, te, tr, smp, a, env.observation(nxt, key=jr.fold_in(k, 6000 + t)))
         return (s2, o2), (o2, r, te, tr, smp, a)
 
     s0, o0 = jax.vmap(one_reset)(keys)
@@ -417,7 +425,8 @@ def judge_batch(what, name, cfg, stack, env, o0, outs, idx_of_row, descr_of_row,
     Returns [(case_index, signature, message)]."""
     tag = f"{name}/{stack_tag(stack)}"
     odecl, adecl = declared(env.observation_space), declared(env.action_space)
-    obs, rew, term, trunc, smp, act = [np.asarray(x) for x in outs]
+    obs, rew, term, trunc, smp, act = [np.asarray(x) for x in outs[:6]]
+    o_succ = np.asarray(outs[6]) if len(outs) > 6 else None
     o0 = np.asarray(o0)
     d = obs.shape[0]
     fails: list = []
@@ -459,6 +468,9 @@ def judge_batch(what, name, cfg, stack, env, o0, outs, idx_of_row, descr_of_row,
 
     members(o0, odecl, 1, "reset-obs", show_box)
     members(obs, odecl, 2, "obs", show_box)
+    if o_succ is not None:
+        members(o_succ, odecl, 2, "successor-obs", show_box)
+        ctx.guard("successor-obs-of-terminal-states", int(np.asarray(term)[:, :n_rows].sum()))
     members(smp, adecl, 2, "sample", show_box)
 
     for label, arr, want in (("reward", rew, "float"), ("terminal", term, "bool"), ("truncate", trunc, "bool")):
@@ -512,11 +524,11 @@ def run_tree_rows(env, name, rows_k, rows_w):
     for i in range(0, len(ks), block):
         kints = jnp.asarray(ks[i : i + block], dtype=jnp.int32)
         syms = jnp.asarray(np.asarray(ws[i : i + block], dtype=np.int32).T)
-        o0, outs = _tree_run(env, kints, syms, table)
+        o0, outs = _tree_run(env, kints, syms, table, FAMILY[name] == "classic")
         o0s.append(np.asarray(o0))
         outss.append([np.asarray(x) for x in outs])
     o0 = np.concatenate(o0s, axis=0)
-    outs = [np.concatenate([o[j] for o in outss], axis=1) for j in range(6)]
+    outs = [np.concatenate([o[j] for o in outss], axis=1) for j in range(len(outss[0]))]
     return o0, outs, n
 
 
@@ -595,11 +607,11 @@ def clause_long(cases, ctx: Ctx):
             for i in range(0, len(rows), block):
                 kints = jnp.asarray([r[0] for r in rows[i : i + block]], dtype=jnp.int32)
                 pol = {f: jnp.asarray([r[1][f] for r in rows[i : i + block]], dtype=jnp.int32) for f in ("kind", "period", "comp", "sign", "hi", "lo")}
-                o0, outs = _long_run(env, kints, pol, table, jnp.arange(H))
+                o0, outs = _long_run(env, kints, pol, table, jnp.arange(H), FAMILY[name] == "classic")
                 o0s.append(np.asarray(o0))
                 outss.append([np.asarray(x) for x in outs])
             o0 = np.concatenate(o0s, axis=0)
-            outs = [np.concatenate([o[j] for o in outss], axis=1) for j in range(6)]
+            outs = [np.concatenate([o[j] for o in outss], axis=1) for j in range(len(outss[0]))]
         except HarnessError:
             raise
         except Exception as e:
@@ -948,6 +960,6 @@ def explore(ctx: Ctx):
     ctx.require(
         "steps-terminal", "steps-truncated", "obs-components-exactly-on-a-finite-bound", "observations-judged",
         "sampled-actions-judged", "sampled-actions-stepped", "configurations-typed-abstractly",
-        "purity-batches-rerun-in-process", "purity-batches-compared-across-processes",
+        "purity-batches-rerun-in-process", "purity-batches-compared-across-processes", "successor-obs-of-terminal-states",
         *[f"judged:{name}" for name in ENVS],
     )
